@@ -289,7 +289,7 @@ fn run_inproc(target: Target, text: &str) -> (Option<String>, &'static str) {
             ictx.label_map.insert("tgt".into(), lib::Label::new(lib::LabelType::CODE, 0, 3));
             ictx.label_map.insert("vb0".into(), lib::Label::new(lib::LabelType::DATA, 0, 0));
             ictx.label_map.insert("vw0".into(), lib::Label::new(lib::LabelType::DATA, 0, 16));
-            ictx.fn_map.insert("fnp".into(), 5);
+            ictx.fn_map.insert("fnp".into(), 5 as _);
             vm.arch.ds = 0xFFFF;
             vm.arch.bx = 0xFFFF;
             vm.arch.cx = 3;
@@ -421,10 +421,16 @@ fn judge_cli(rep: &Report, out: &CliOut, class: &str, family: &str, src: &[u8], 
         // a generated program that itself loops forever keeps emitting hook records: that is the program's
         // behaviour, not the emulator's (control flow is C06/C08's subject); a spin of the emulator's own
         // loops (prompt, services) floods the output without executing instructions
-        let recs = out.stdout.windows(4).filter(|w| w == b"\x1e@@V").count();
-        if recs > 2000 {
-            rep.count("binary runs of programs that loop by themselves (not judged)", 1);
-            return;
+        // (judged by where the last hook record lies: a looping program keeps producing records up to the end of
+        // the captured output -- at most one legitimate print, < 3.4 MB, behind the last one; a spinning emulator
+        // leaves megabytes of output behind its last record)
+        let last = out.stdout.windows(4).rposition(|w| w == b"\x1e@@V");
+        match last {
+            Some(p) if out.stdout.len() - p <= (4 << 20) => {
+                rep.count("binary runs of programs that loop by themselves (not judged)", 1);
+                return;
+            }
+            _ => {}
         }
         "spin"
     } else if out.timed_out {
